@@ -143,8 +143,14 @@ struct Built {
     is_fst: bool,
     is_merged: bool,
     is_curated: bool,
-    /// FstDictionary::new called directly on entries whose ids are not pairwise distinct (known finding)
+    /// FstDictionary::new called directly on entries whose ids are not pairwise distinct: which spelling of an
+    /// id survives differs from MutableDictionary::extend_words (sorted order vs insertion order; FC15b)
     id_collision: bool,
+    /// the concrete MergedDictionary (for `==`)
+    merged: Option<MergedDictionary>,
+    /// for an `id_collision` FstDictionary: MutableDictionary::extend_words over the entries in SORTED order,
+    /// first metadata per spelling — what FstDictionary::new is specified to hold (C15_fst_new_in_step)
+    sorted_ref: Option<Arc<dyn Dictionary>>,
 }
 
 struct Cx {
@@ -252,6 +258,7 @@ fn build(cx: &mut Cx, s: &Scenario) -> Option<Vec<Built>> {
             cx.declare(w);
             cx.monitor_id(w);
         }
+        let mut merged_handle: Option<MergedDictionary> = None;
         let built: Result<(Arc<dyn Dictionary>, Vec<Vec<char>>, String), String> = guarded(|| match def.ty.as_str() {
             "M" => {
                 let mut m = MutableDictionary::new();
@@ -288,6 +295,7 @@ fn build(cx: &mut Cx, s: &Scenario) -> Option<Vec<Built>> {
                     ws.extend(b.words.iter().cloned());
                 }
                 let line = format!("X {} | {}", gname, names.join(" "));
+                merged_handle = Some(x.clone());
                 (Arc::new(x) as Arc<dyn Dictionary>, ws, line)
             }
             "CF" | "CM" => {
@@ -334,7 +342,15 @@ fn build(cx: &mut Cx, s: &Scenario) -> Option<Vec<Built>> {
                 let _ = words;
                 let words: Vec<Vec<char>> = dict.words_iter().map(|w| w.to_vec()).collect();
                 let word_set = words.iter().cloned().collect();
-                out.push(Built { def: def.clone(), gname, dict, words, word_set, is_fst: matches!(def.ty.as_str(), "F" | "FM" | "CF"), is_merged: def.ty == "X", is_curated: def.ty.starts_with('C'), id_collision: def.ty == "F" && !ids_distinct(&def.entries) });
+                out.push(Built { def: def.clone(), gname, dict, words, word_set, is_fst: matches!(def.ty.as_str(), "F" | "FM" | "CF"), is_merged: def.ty == "X", is_curated: def.ty.starts_with('C'), id_collision: def.ty == "F" && !ids_distinct(&def.entries), merged: merged_handle,
+                    sorted_ref: if def.ty == "F" && !ids_distinct(&def.entries) {
+                        let mut es = chars.clone();
+                        es.sort_by(|a, b| a.0.cmp(&b.0));
+                        es.dedup_by(|a, b| a.0 == b.0);
+                        let mut m = MutableDictionary::new();
+                        m.extend_words(es);
+                        Some(Arc::new(m) as Arc<dyn Dictionary>)
+                    } else { None } });
             }
             Err(m) => {
                 cx.rep.fail("build_panic", format!("building dictionary {} ({}) panicked: {m}", def.name, def.ty), scenario_json(s, None));
@@ -390,6 +406,9 @@ fn exact_line(e: &Exact) -> String {
 fn run_scenario(cx: &mut Cx, s: &Scenario) {
     let Some(built) = build(cx, s) else { return };
     let by_name: HashMap<String, usize> = built.iter().enumerate().map(|(i, b)| (b.def.name.clone(), i)).collect();
+    if !s.malformed {
+        structure_oracle(cx, s, &built, &by_name);
+    }
     for query in &s.queries {
         cx.rep.eval();
         let q: Vec<char> = query.q.chars().collect();
@@ -445,7 +464,19 @@ fn run_scenario(cx: &mut Cx, s: &Scenario) {
                     if a != b {
                         let (ba, bb) = (&built[by_name[w[0]]], &built[by_name[w[1]]]);
                         let (ta, tb) = (&ba.def.ty, &bb.def.ty);
-                        let class = if ba.id_collision || bb.id_collision { "fst_new_id_collision" } else { "backends_disagree" };
+                        // FC15b: FstDictionary::new on colliding ids keeps the last spelling in SORTED order, extend_words the
+                        // last INSERTED.  Only that: the FST must still answer like extend_words over the sorted list.
+                        let mut class = "backends_disagree";
+                        for (x, other) in [(ba, bb), (bb, ba)] {
+                            if let (true, Some(rf), false) = (x.id_collision, x.sorted_ref.as_ref(), other.id_collision) {
+                                let probe = Built { def: x.def.clone(), gname: String::new(), dict: rf.clone(), words: vec![], word_set: HashSet::new(), is_fst: false, is_merged: false, is_curated: false, id_collision: false, merged: None, sorted_ref: None };
+                                if let Ok((want, _)) = ask_exact(cx, &probe, &q) {
+                                    if want == answers[&x.def.name] {
+                                        class = "fst_new_id_collision";
+                                    }
+                                }
+                            }
+                        }
                         cx.rep.fail(class, format!("{}({}) and {}({}) hold the same entries but answer {:?} differently: [{}] vs [{}]", w[0], ta, w[1], tb, query.q, exact_line(a), exact_line(b)), fail_input.clone());
                     }
                 }
@@ -476,9 +507,11 @@ fn run_scenario(cx: &mut Cx, s: &Scenario) {
 
         // ---- fuzzy search ----
         if query.fuzzy {
+            // what each dictionary returned for this query (for the merged = function-of-children oracle)
+            let mut fuzzy_got: HashMap<String, Vec<(Vec<char>, u8, usize)>> = HashMap::new();
             for &i in &targets {
                 let b = &built[i];
-                // levenshtein_automata builders explode beyond distance 3; the property bounds 0..3
+                // the curated FST is only asked up to distance 3 (bounds 4 and 5 are exercised on small dictionaries)
                 if b.is_curated && query.d > 3 {
                     continue;
                 }
@@ -502,18 +535,17 @@ fn run_scenario(cx: &mut Cx, s: &Scenario) {
                     Err(m) => {
                         let pc = panic_class(&m);
                         cx.rep.case(&format!("{head} | P {pc}"), &format!("P {pc}"));
-                        // F19: the u8 rows of edit_distance_min_alloc for strings of >= 255 characters
-                        let long = qn.len() >= 255 || ql_chars.len() >= 255 || b.words.iter().any(|w| w.len() >= 255);
-                        let class = if long && matches!(pc, "overflow" | "index" | "assert") { "fuzzy_panic_len_ge_255" } else { "fuzzy_panic" };
-                        cx.rep.fail(class, format!("fuzzy_match on {} ({}) panicked ({pc}): {m}", b.def.name, b.def.ty), fail_input.clone());
+                        // (F19, fixed by 7a7de79: strings of >= 255 characters used to panic here)
+                        cx.rep.fail("fuzzy_panic", format!("fuzzy_match on {} ({}) panicked ({pc}) at {}: {m}", b.def.name, b.def.ty, last_panic_location()), fail_input.clone());
                         cx.rep.count("fuzzy:panic");
                     }
                     Ok(r) => {
                         let es: Vec<(u8, Vec<u32>, usize)> = r.iter().map(|(w, d, m)| (*d, w.iter().map(|c| *c as u32).collect(), cx.tag(m))).collect();
                         let raw = es.iter().map(|e| format!("{} {} {}", e.0, e.2, e.1.iter().map(|c| c.to_string()).collect::<Vec<_>>().join(" ")).trim().to_string()).collect::<Vec<_>>().join(" ; ");
                         // merged: compared raw and in order (a function of what the children returned);
-                        // mutable / FST: canonical form (hash-map order and unstable sorts are unspecified)
-                        let impl_line = if b.is_merged {
+                        // mutable: raw and in order too (since fix 5a329ea the (distance, word) sort leaves nothing open);
+                        // FST: canonical form (the unstable sorts are unspecified)
+                        let impl_line = if b.is_merged || !b.is_fst {
                             format!("R {}", es.iter().map(|e| format!("{}:{}:{}", e.0, e.2, e.1.iter().map(|c| c.to_string()).collect::<Vec<_>>().join(" "))).collect::<Vec<_>>().join(", ")).trim().to_string()
                         } else {
                             canon_fuzzy(query.k, es)
@@ -525,6 +557,21 @@ fn run_scenario(cx: &mut Cx, s: &Scenario) {
                             if cx.rep.samples.len() < 8 && r.len() >= 2 && (cx.rep.samples.len() as u64) * 400 < cx.rep.evaluations {
                                 cx.rep.sample(json!({"dictionary": format!("{} ({}, {} words)", b.def.name, b.def.ty, b.words.len()), "query": query.q, "max_distance": query.d, "max_results": query.k,
                                     "results": r.iter().take(6).map(|(w, d, _)| json!([w.iter().collect::<String>(), d])).collect::<Vec<_>>(), "n_results": r.len(), "origin": s.origin}));
+                            }
+                        }
+                        fuzzy_got.insert(b.def.name.clone(), r.iter().map(|(w, d, m)| (w.clone(), *d, cx.tag(m))).collect());
+                        if b.is_merged {
+                            // MergedDictionary::fuzzy_match = the children's results concatenated, stably sorted by
+                            // distance, cut at max_results (C15_merged_fuzzy_spec) — also for malformed inputs
+                            let kids: Vec<&Vec<(Vec<char>, u8, usize)>> = b.def.children.iter().filter_map(|c| fuzzy_got.get(c)).collect();
+                            if kids.len() == b.def.children.len() {
+                                let mut want: Vec<(Vec<char>, u8, usize)> = kids.iter().flat_map(|k| k.iter().cloned()).collect();
+                                want.sort_by_key(|e| e.1);
+                                want.truncate(query.k);
+                                if want != fuzzy_got[&b.def.name] {
+                                    let show = |v: &Vec<(Vec<char>, u8, usize)>| v.iter().map(|(w, d, _)| format!("{}@{}", w.iter().collect::<String>(), d)).collect::<Vec<_>>().join(" ");
+                                    cx.rep.fail("merged_fuzzy_not_union", format!("merged {}: fuzzy_match({:?}, {}, {}) = [{}] but its children's results, merged by distance and capped, are [{}]", b.def.name, query.q, query.d, query.k, show(&fuzzy_got[&b.def.name]), show(&want)), fail_input.clone());
+                                }
                             }
                         }
                         if !s.malformed {
@@ -555,6 +602,43 @@ fn run_scenario(cx: &mut Cx, s: &Scenario) {
     }
 }
 
+/// per scenario, independent of the queries: a merged dictionary lists the words of its parts (word_count = sum,
+/// words_iter = concatenation), and `==` on merged dictionaries agrees with their contents (fix f2dc537)
+fn structure_oracle(cx: &mut Cx, s: &Scenario, built: &[Built], by_name: &HashMap<String, usize>) {
+    let mut bare = s.clone();
+    bare.queries.clear();
+    let input = scenario_json(&bare, None);
+    let sorted_words = |b: &Built| {
+        let mut v = b.words.clone();
+        v.sort();
+        v
+    };
+    for b in built.iter().filter(|b| b.is_merged) {
+        let kids: Vec<&Built> = b.def.children.iter().filter_map(|c| by_name.get(c).map(|i| &built[*i])).collect();
+        let mut want: Vec<Vec<char>> = kids.iter().flat_map(|k| k.words.iter().cloned()).collect();
+        want.sort();
+        let n_want: usize = kids.iter().map(|k| k.dict.word_count()).sum();
+        if b.dict.word_count() != n_want || sorted_words(b) != want {
+            cx.rep.fail("merged_not_union", format!("merged {} of {:?}: word_count {} / words_iter {} words, but its parts have word_count {} / {} words in total", b.def.name, b.def.children, b.dict.word_count(), b.words.len(), n_want, want.len()), input.clone());
+        }
+    }
+    let xs: Vec<&Built> = built.iter().filter(|b| b.merged.is_some() && !b.def.children.iter().any(|c| by_name.get(c).map(|i| built[*i].is_curated).unwrap_or(true))).collect();
+    for (i, a) in xs.iter().enumerate() {
+        for b in xs.iter().skip(i + 1) {
+            let eq = a.merged.as_ref().unwrap() == b.merged.as_ref().unwrap();
+            cx.rep.monitor("merged_eq_pairs_checked", 1);
+            let kids = |x: &Built| x.def.children.iter().map(|c| sorted_words(&built[by_name[c]])).collect::<Vec<_>>();
+            let (ka, kb) = (kids(a), kids(b));
+            if eq && sorted_words(a) != sorted_words(b) {
+                cx.rep.fail("merged_eq_but_differ", format!("merged dictionaries {} and {} compare equal (==) but hold different words: {:?} vs {:?}", a.def.name, b.def.name, a.words.iter().map(|w| w.iter().collect::<String>()).collect::<Vec<_>>(), b.words.iter().map(|w| w.iter().collect::<String>()).collect::<Vec<_>>()), input.clone());
+            }
+            if !eq && ka == kb {
+                cx.rep.fail("merged_eq_order_dependent", format!("merged dictionaries {} and {} have children with the same words, child by child, but compare unequal (!=): the content hash depends on the hash-map iteration order", a.def.name, b.def.name), input.clone());
+            }
+        }
+    }
+}
+
 trait AsciiChars {
     fn is_ascii_chars(&self) -> bool;
 }
@@ -581,19 +665,44 @@ fn fuzzy_oracle(cx: &mut Cx, b: &Built, query: &Query, qn: &[char], ql_chars: &[
         let ws: String = w.iter().collect();
         // a real dictionary word, with that word's metadata
         if !b.word_set.contains(w) {
-            let class = if b.id_collision { "fst_new_id_collision" } else { "fuzzy_not_a_word" };
-            cx.rep.fail(class, format!("{who}: result {ws:?} for {:?} is not a word of the dictionary (words_iter)", query.q), fail_input.clone());
+            cx.rep.fail("fuzzy_not_a_word", format!("{who}: result {ws:?} for {:?} is not a word of the dictionary (words_iter)", query.q), fail_input.clone());
         } else if !b.is_merged && b.dict.get_word_metadata(w) != Some(md) {
             cx.rep.fail("fuzzy_metadata", format!("{who}: result {ws:?} carries metadata that differs from get_word_metadata({ws:?})"), fail_input.clone());
         }
         // a true Levenshtein distance to the query or its lower-case form, within the bound
         let (du, dl1, dl2) = (lev(qn, w), lev(ql_chars, w), lev(ql_string, w));
         let dd = *dist as usize;
-        if dd != du && dd != dl1 && dd != dl2 {
+        if dd == 255 && du.min(dl1).min(dl2) > 255 {
+            // F19b: the u8 result of edit_distance_min_alloc saturates; only max_distance = 255 can see it
+            cx.rep.fail("fuzzy_distance_saturated", format!("{who}: result {ws:?} for a query of {} characters reports distance 255 (u8::MAX); true distances: {du} to the query, {dl1}/{dl2} to its lower-case form — beyond max_distance {d}", qn.len()), fail_input.clone());
+        } else if dd != du && dd != dl1 && dd != dl2 {
             cx.rep.fail("fuzzy_distance", format!("{who}: result {ws:?} for {:?} reports distance {dd}; true distances: {du} to the query, {dl1}/{dl2} to its lower-case form", query.q), fail_input.clone());
         }
         if dd > d {
             cx.rep.fail("fuzzy_bound", format!("{who}: result {ws:?} at distance {dd} > max_distance {d}"), fail_input.clone());
+        }
+    }
+    // MutableDictionary (fix 5a329ea): ties are ordered by the word, so the result is a function of the
+    // dictionary's contents (C15_mutable_fuzzy: StronglySorted fres_order; C15_mutable_fuzzy_deterministic)
+    if !b.is_fst && !b.is_merged {
+        if let Some(w) = r.windows(2).find(|w| w[0].1 == w[1].1 && w[0].0 >= w[1].0) {
+            cx.rep.fail("fuzzy_tie_order", format!("{who}: results {:?} and {:?} (both at distance {}) for {:?} are not in word order: which equidistant candidates survive the cap, and their order, depend on the hash-map iteration order", w[0].0.iter().collect::<String>(), w[1].0.iter().collect::<String>(), w[0].1, query.q), fail_input.clone());
+        }
+        // exact completeness: nothing that was cut is (distance, word)-smaller than the last result
+        if r.len() >= query.k && query.k > 0 {
+            let last = &r[r.len() - 1];
+            let found: HashSet<&Vec<char>> = r.iter().map(|x| &x.0).collect();
+            let lo = if qn.len() <= d { 1 } else { qn.len() - d };
+            for w in &b.words {
+                if found.contains(w) || w.len() < lo || w.len() > qn.len() + d {
+                    continue;
+                }
+                let dw = lev(qn, w).min(lev(ql_chars, w)).min(255);
+                if dw <= d && (dw, w) < (last.1 as usize, &last.0) {
+                    cx.rep.fail("fuzzy_tie_order", format!("{who}: {:?} at distance {dw} was cut by the cap although it sorts before the last result {:?} at distance {} for {:?}", w.iter().collect::<String>(), last.0.iter().collect::<String>(), last.1, query.q), fail_input.clone());
+                    break;
+                }
+            }
         }
     }
     // for lower-case queries no word within the bound is missed
@@ -748,6 +857,9 @@ fn family(entries: Vec<(String, usize)>, split: usize) -> (Vec<DictDef>, Vec<Vec
         d("xf", "X", &[], &["fm"]),
         d("xparts", "X", &[], &["p1", "fp2"]),
         d("xx", "X", &[], &["xparts", "m"]),
+        // two children with the same words (duplicates in words_iter / word_count / fuzzy results are part of
+        // "the union of its parts" as the code defines it: C15_merged_fuzzy_spec)
+        d("xdup", "X", &[], &["m", "fm"]),
     ];
     let mut agree = vec![vec!["m".to_string(), "fm".into(), "xm".into(), "xf".into()]];
     if with_direct_fst {
@@ -801,7 +913,7 @@ pub fn run(a: &Args, corpus: &[Value]) {
         curated_emitted: HashMap::new(),
         fst_cases: 0,
     };
-    cx.rep.rule = "scenarios = named dictionaries built through the public API (MutableDictionary::extend_words, FstDictionary::new, FstDictionary::from(Mutable), MergedDictionary incl. nested, the two curated dictionaries) x queries (dictionary words, re-cased, 1-3 random edits, typographic apostrophes, non-ASCII incl. length-changing lower-casing, empty, long up to 300) x max_distance 0..3 x max_results {0,1,2,3,5,10,100,1000}; every query asks all exact-trait methods (char and _str variants, get_word_from_id) and fuzzy_match/_str on every back-end of the scenario. non-trivial = distinct (scenario, query) where some back-end contains the word or returns >= 1 fuzzy result".into();
+    cx.rep.rule = "scenarios = named dictionaries built through the public API (MutableDictionary::extend_words, FstDictionary::new, FstDictionary::from(Mutable), MergedDictionary incl. nested / duplicated / empty children, the two curated dictionaries) x queries (dictionary words, re-cased, 1-3 random edits, typographic apostrophes, non-ASCII incl. length-changing lower-casing, empty, long up to 300) x max_distance 0..3 (4, thorough also 5, on small dictionaries; 255 for the distance function with strings up to 300 characters) x max_results {0,1,2,3,5,10,100,1000}; every query asks all exact-trait methods (char and _str variants, get_word_from_id) and fuzzy_match/_str on every back-end of the scenario; per scenario word_count / words_iter of merged dictionaries and == between them. non-trivial = distinct (scenario, query) where some back-end contains the word or returns >= 1 fuzzy result".into();
     // the Unicode data of ASCII is declared up front
     let ascii: Vec<char> = (0u8..128).map(|b| b as char).collect();
     cx.declare(&ascii);
@@ -831,7 +943,9 @@ pub fn run(a: &Args, corpus: &[Value]) {
         return;
     }
     let mut r = Rng::new(a.seed);
+    let t_start = std::time::Instant::now();
 
+    if std::env::var("C15_TIMING").is_ok() { eprintln!("t0 {:?}", t_start.elapsed()); }
     // ---- (1) the curated dictionaries: Fst, Mutable, Merged[Fst], Merged[Fst, user Mutable] ----
     let words = curated_sample(&mut cx);
     {
@@ -868,6 +982,7 @@ pub fn run(a: &Args, corpus: &[Value]) {
         run_scenario(&mut cx, &s);
     }
 
+    if std::env::var("C15_TIMING").is_ok() { eprintln!("t1 {:?}", t_start.elapsed()); }
     // ---- (2) sample dictionaries: subsets of the curated list + variants, all back-end families ----
     for _ in 0..a.scale(40, 400) {
         let n = *r.pick(&[3usize, 10, 40, 150, 400]);
@@ -899,6 +1014,7 @@ pub fn run(a: &Args, corpus: &[Value]) {
         run_scenario(&mut cx, &s);
     }
 
+    if std::env::var("C15_TIMING").is_ok() { eprintln!("t2 {:?}", t_start.elapsed()); }
     // ---- (3) small alphabets: dense collisions of distance, case and apostrophes ----
     for _ in 0..a.scale(300, 3000) {
         let alphabet: &[char] = *r.pick(&[&['a', 'b'][..], &['a', 'b', 'A'][..], &['a', 'B', '\''][..], &['a', '\'', '\u{2019}'][..], &['i', 'İ', 'I'][..], &['σ', 'Σ', 'ς'][..], &['é', 'É', 'e'][..]]);
@@ -915,26 +1031,33 @@ pub fn run(a: &Args, corpus: &[Value]) {
         run_scenario(&mut cx, &s);
     }
 
+    if std::env::var("C15_TIMING").is_ok() { eprintln!("t3 {:?}", t_start.elapsed()); }
     // ---- (4) the distance function through a one-word MutableDictionary (d = 255 sees every value) ----
     // (the extracted buffer-faithful model is cubic in the length: few long cases in the quick tier)
-    let n_long = a.scale(9, 150);
+    let n_long = a.scale(14, 210);
     for it in 0..a.scale(600, 6000) {
         let alphabet: &[char] = *r.pick(&[&['a', 'b'][..], &['a', 'b', 'c', 'd'][..], &['a', 'b', 'A'][..]]);
-        let (ls, lt) = match if it < n_long { it % 3 } else { 3 + r.below(9) } {
+        let (ls, lt) = match if it < n_long { it % 7 } else { 7 + r.below(9) } {
             0 => (r.range(200, 254), r.range(200, 254)),
             1 => (254, r.range(1, 254)),
             2 => (r.range(0, 254), 254),
-            3 => (r.range(30, 70), r.range(30, 70)),
+            // beyond the u8 rows (fix 7a7de79): the usize fallback, saturating at 255
+            3 => (r.range(255, 257), r.range(1, 3)),
+            4 => (r.range(1, 254), r.range(255, 300)),
+            5 => (r.range(255, 300), r.range(255, 300)),
+            6 => (r.range(255, 300), r.range(1, 254)),
+            7 => (r.range(30, 70), r.range(30, 70)),
             _ => (r.below(14), 1 + r.below(14)),
         };
         let s_: String = (0..ls).map(|_| *r.pick(alphabet)).collect();
         // the word: a mutation of the query (interesting distances) or independent
-        let t_: String = if r.chance(2, 3) { let ne = r.below(6); let e = edit(&mut r, &s_, ne, alphabet); if e.is_empty() { "a".into() } else { e.chars().take(254).collect() } } else { (0..lt).map(|_| *r.pick(alphabet)).collect() };
+        let t_: String = if r.chance(2, 3) { let ne = r.below(6); let e = edit(&mut r, &s_, ne, alphabet); if e.is_empty() { "a".into() } else { e.chars().take(300).collect() } } else { (0..lt).map(|_| *r.pick(alphabet)).collect() };
         let dicts = vec![DictDef { name: "w".into(), ty: "M".into(), entries: vec![(t_, 0)], children: vec![] }];
         let queries = vec![Query { q: s_, d: 255, k: 1, on: vec![], fuzzy: true }];
         run_scenario(&mut cx, &Scenario { dicts, agree: vec![], queries, origin: "edit-distance".into(), malformed: false });
     }
 
+    if std::env::var("C15_TIMING").is_ok() { eprintln!("t4 {:?}", t_start.elapsed()); }
     // ---- (5) malformed stream: the empty dictionary word, exact duplicates, distance bounds > 3 ----
     for _ in 0..a.scale(60, 600) {
         let mut entries = small_alphabet_words(&mut r, &['a', 'b', 'A'], 5, 3);
@@ -956,6 +1079,87 @@ pub fn run(a: &Args, corpus: &[Value]) {
         run_scenario(&mut cx, &Scenario { dicts, agree: vec![], queries, origin: "malformed".into(), malformed: true });
     }
 
+    if std::env::var("C15_TIMING").is_ok() { eprintln!("t5 {:?}", t_start.elapsed()); }
+    // ---- (6) distance bounds beyond 3 (SpellCheck's back-off asks 4): every back-end, words at distance 4 (5) ----
+    for it in 0..a.scale(120, 1500) {
+        let alphabet: &[char] = *r.pick(&[&['a', 'b'][..], &['a', 'b', 'c', 'd', 'e'][..], &['a', 'b', 'A'][..], &['x', 'y', 'z', '\''][..]]);
+        let mut entries: Vec<(String, usize)> = vec![];
+        let base: String = (0..r.range(4, 9)).map(|_| *r.pick(alphabet)).collect();
+        for _ in 0..r.range(1, 8) {
+            let w = if r.chance(2, 3) { let ne = r.range(3, 7); edit(&mut r, &base, ne, alphabet) } else { let l = r.range(1, 10); (0..l).map(|_| *r.pick(alphabet)).collect() };
+            if !w.is_empty() {
+                entries.push((w, r.below(16)));
+            }
+        }
+        let distinct = ids_distinct(&entries);
+        let (dicts, agree) = family(entries.clone(), r.below(entries.len() + 1));
+        let mut queries = vec![];
+        for _ in 0..4 {
+            let q = if r.chance(1, 2) { base.clone() } else { let ne = r.below(4); edit(&mut r, &base, ne, alphabet) };
+            let q = if r.chance(1, 6) { recase(&mut r, &q) } else { q };
+            // the parametric automaton of levenshtein_automata for distance 5 takes ~6 s and 170 MB to build (6: minutes)
+            let dq = if a.thorough() && it % 10 == 0 { 5 } else { 4 };
+            queries.push(Query { q, d: dq, k: *r.pick(&[1usize, 3, 100]), on: vec![], fuzzy: true });
+        }
+        let s = Scenario { dicts, agree, queries, origin: if distinct { "large-distance".into() } else { "large-distance-id-collisions".into() }, malformed: false };
+        run_scenario(&mut cx, &s);
+    }
+
+    if std::env::var("C15_TIMING").is_ok() { eprintln!("t6 {:?}", t_start.elapsed()); }
+    // ---- (7) structure of merged dictionaries: children that spell the same letters ({"ab","c"} / {"abc"} / {"cab"}),
+    // the same words in another insertion order, duplicated and empty children; `==` must follow the contents ----
+    for _ in 0..a.scale(150, 1500) {
+        let alphabet: &[char] = *r.pick(&[&['a', 'b', 'c'][..], &['k', 'e', 'y', 'b', 'o', 'a', 'r', 'd'][..], &['a', 'A', '\''][..]]);
+        let n = *r.pick(&[2usize, 2, 2, 3, 5, 8]);
+        let mut parts: Vec<String> = vec![];
+        while parts.len() < n {
+            let l = r.range(1, 4);
+            let w: String = (0..l).map(|_| *r.pick(alphabet)).collect();
+            if !parts.contains(&w) {
+                parts.push(w);
+            }
+        }
+        // metadata = a function of the word (the same entry whatever the insertion order)
+        let ent = |ws: &[String]| ws.iter().map(|w| (w.clone(), w.chars().map(|c| c as usize).sum::<usize>() % 16)).collect::<Vec<_>>();
+        let mut rev = parts.clone();
+        rev.reverse();
+        let mut shuffled = parts.clone();
+        for i in (1..shuffled.len()).rev() {
+            let j = r.below(i + 1);
+            shuffled.swap(i, j);
+        }
+        let d = |name: &str, ty: &str, entries: &[(String, usize)], children: &[&str]| DictDef { name: name.into(), ty: ty.into(), entries: entries.to_vec(), children: children.iter().map(|s| s.to_string()).collect() };
+        let cat1 = vec![parts.concat()];
+        let cat2 = vec![rev.concat()];
+        let resplit: Vec<String> = {
+            // the same letters cut at another place: {"ab","c"} -> {"a","bc"}
+            let all: Vec<char> = parts.concat().chars().collect();
+            let cut = r.range(1, all.len().max(2) - 1).min(all.len());
+            vec![all[..cut].iter().collect(), all[cut..].iter().collect()]
+        };
+        let dicts = vec![
+            d("a", "M", &ent(&parts), &[]), d("a2", "M", &ent(&rev), &[]), d("a3", "M", &ent(&shuffled), &[]), d("fa", "FM", &[], &["a"]),
+            d("b1", "M", &ent(&cat1), &[]), d("b2", "M", &ent(&cat2), &[]), d("b3", "M", &ent(&resplit), &[]), d("e", "M", &[], &[]), d("e2", "M", &[], &[]),
+            d("xa", "X", &[], &["a"]), d("xa2", "X", &[], &["a2"]), d("xa3", "X", &[], &["a3"]), d("xfa", "X", &[], &["fa"]),
+            d("xb1", "X", &[], &["b1"]), d("xb2", "X", &[], &["b2"]), d("xb3", "X", &[], &["b3"]),
+            d("xab", "X", &[], &["a", "b1"]), d("xaa", "X", &[], &["a", "a2"]), d("xafa", "X", &[], &["a", "fa"]), d("xee", "X", &[], &["e", "a", "e2", "b2"]),
+            d("xnest", "X", &[], &["xa", "xa2"]),
+        ];
+        let mut queries = vec![];
+        let mut qs: Vec<String> = parts.clone();
+        qs.push(cat1[0].clone());
+        qs.push(cat2[0].clone());
+        qs.push(resplit[0].clone());
+        for _ in 0..3 {
+            let q = r.pick(&qs).clone();
+            let q = if r.chance(1, 3) { edit(&mut r, &q, 1, alphabet) } else { q };
+            queries.push(Query { q, d: r.range(0, 3) as u8, k: *r.pick(&[1usize, 2, 3, 100]), on: vec![], fuzzy: true });
+        }
+        let agree = if ids_distinct(&ent(&parts)) { vec![vec!["a".to_string(), "a2".into(), "a3".into(), "fa".into(), "xa".into(), "xa2".into(), "xa3".into(), "xfa".into(), "xaa".into(), "xafa".into(), "xnest".into()]] } else { vec![] };
+        run_scenario(&mut cx, &Scenario { dicts, agree, queries, origin: "merged-structure".into(), malformed: false });
+    }
+
+    if std::env::var("C15_TIMING").is_ok() { eprintln!("t7 {:?}", t_start.elapsed()); }
     if a.thorough() {
         exhaustive(&mut cx);
     }
